@@ -5,7 +5,8 @@ from .. import common, build, lean, check, script
 
 MODULE = "Dbus.Props.C17"
 THEOREMS = ["inv_run", "completes_at_most_once", "cancelled_never_notified", "reply_matches_serial", "counterAfter_eq",
-            "serial_nonzero", "serials_distinct_before_wrap", "serial_fits", "f11_witness", "completes_by_reply_timeout_block"]
+            "serial_nonzero", "serials_distinct_before_wrap", "serial_fits", "f11_witness", "completes_by_reply_timeout_block",
+            "registered_serials_distinct"]
 
 
 def canon(line):
